@@ -146,7 +146,13 @@ def discharge(hyps, goal, timeout_ms=20000, use_cvc5=False, seed=0, want_model=T
     fs_struct = [ab.run(f) for f in fs]
     quant = has_quantifier(fs)
     if ab.used:
-        v, dt, _, why = _solve(fs_struct, timeout_ms * (0.5 if True else 1), seed)
+        # z3's simplifier orders the arguments of `*` by ast id, which is not stable under quantifier instantiation:
+        # commutativity of the abstracted product is supplied as an axiom (sound: real multiplication commutes)
+        xr, yr = z3.Reals('cm_x cm_y')
+        xi, yi = z3.Ints('cm_i cm_j')
+        fs_struct = fs_struct + [z3.ForAll([xr, yr], MUL_R(xr, yr) == MUL_R(yr, xr), patterns=[MUL_R(xr, yr)]),
+                                 z3.ForAll([xi, yi], MUL_I(xi, yi) == MUL_I(yi, xi), patterns=[MUL_I(xi, yi)])]
+        v, dt, _, why = _solve(fs_struct, timeout_ms * 0.5, seed)
         total += dt
         if v == 'unsat':
             return dict(verdict='proved', backend='z3/structural', time_s=total, model=None, reason='')
